@@ -1,27 +1,116 @@
-(* temporary: one-shot ops only *)
+(* Parses `H <mode> <platform> <ops...>` case lines into the extracted Machine.op
+   type, runs Machine.run_case, prints the observations. *)
 open Model
 open Bytespec
+
 let platform_of = function
   | "portable" -> sim_platform (n_of_int 1) (n_of_int 16)
   | "sse2" | "sse41" -> sim_platform (n_of_int 4) (n_of_int 16)
   | "avx2" -> sim_platform (n_of_int 8) (n_of_int 16)
   | "avx512" | "detect" -> sim_platform (n_of_int 16) (n_of_int 16)
+  (* builds without AVX-512 (feature `pure`): MAX_SIMD_DEGREE = 8 *)
+  | "portable8" -> sim_platform (n_of_int 1) (n_of_int 8)
+  | "sse2_8" | "sse41_8" -> sim_platform (n_of_int 4) (n_of_int 8)
+  | "avx2_8" | "detect8" -> sim_platform (n_of_int 8) (n_of_int 8)
   | s -> failwith ("platform " ^ s)
-let res_hex = function
-  | Ok h -> hex_of_nlist h
-  | Panic c -> if debug_only c then "PANIC_DBG" else "PANIC"
-  | OutOfFuel -> "OUTOFFUEL"
+
+let mode_of (s : string) : mmode =
+  match String.index_opt s '=' with
+  | None -> if s = "hash" then MHash else failwith "mode"
+  | Some i ->
+    let k = String.sub s 0 i and v = String.sub s (i + 1) (String.length s - i - 1) in
+    (match k with
+     | "keyed" -> MKeyed (parse v)
+     | "derive" -> MDerive (parse v)
+     | "derivek" -> MDeriveK (parse v)
+     | _ -> failwith "mode")
+
+let nat_of_string s = nat_of_int (int_of_string s)
+
+let z_of_string (s : string) : z =
+  if s = "0" || s = "-0" then Z0
+  else if s.[0] = '-' then
+    (match n_of_string (String.sub s 1 (String.length s - 1)) with N0 -> Z0 | Npos p -> Zneg p)
+  else (match n_of_string s with N0 -> Z0 | Npos p -> Zpos p)
+
+let vref_of (s : string) : vref =
+  if s.[0] = '$' then VRef (nat_of_string (String.sub s 1 (String.length s - 1))) else VLit (parse s)
+
+let script_of (s : string) : read_item list =
+  if s = "" then [] else
+  List.map (fun it ->
+      match it.[0] with
+      | 'd' -> RDeliver (n_of_string (String.sub it 1 (String.length it - 1)))
+      | 'i' -> RInterrupted
+      | 'z' -> RZero
+      | 'e' ->
+        let k = String.sub it 1 (String.length it - 1) in
+        RError (n_of_int (match k with "wouldblock" -> 1 | "unexpectedeof" -> 2 | "invaliddata" -> 3
+                                       | "timedout" -> 4 | _ -> 5))
+      | _ -> failwith "script item") (String.split_on_char ',' s)
+
+let op_of (tok : string) : op =
+  match String.split_on_char ':' tok with
+  | ["n"] -> OpNew
+  | ["u"; i; b] -> OpUpdate (nat_of_string i, parse b)
+  (* update_rayon / scripted join: same function as update (C08 compares the real runs) *)
+  | ["uy"; i; b] -> OpUpdate (nat_of_string i, parse b)
+  | ["us"; i; b; _] -> OpUpdate (nat_of_string i, parse b)
+  | ["w"; i; b] -> OpWrite (nat_of_string i, parse b)
+  | ["ur"; i; b] -> OpUpdateReader (nat_of_string i, parse b, [])
+  | ["ur"; i; b; sc] -> OpUpdateReader (nat_of_string i, parse b, script_of sc)
+  | ["f"; i] -> OpFinalize (nat_of_string i)
+  | ["x"; i; n] -> OpXof (nat_of_string i, n_of_string n)
+  | ["c"; i] -> OpCount (nat_of_string i)
+  | ["cl"; i] -> OpClone (nat_of_string i)
+  | ["r"; i] -> OpReset (nat_of_string i)
+  | ["so"; i; off] -> OpSetOffset (nat_of_string i, n_of_string off)
+  | ["nr"; i] -> OpNonRoot (nat_of_string i)
+  | ["oh"; b] -> OpOneShot (parse b)
+  | ["mn"; l; r] -> OpMergeNonRoot (vref_of l, vref_of r)
+  | ["mr"; l; r] -> OpMergeRoot (vref_of l, vref_of r)
+  | ["mx"; l; r] -> OpMergeXof (vref_of l, vref_of r)
+  | ["ck"; c] -> OpContextKey (parse c)
+  | ["xo"; i] -> OpReaderNew (nat_of_string i)
+  | ["rf"; j; n] -> OpFill (nat_of_string j, n_of_string n)
+  | ["rr"; j; n] -> OpRead (nat_of_string j, n_of_string n)
+  | ["rp"; j] -> OpPos (nat_of_string j)
+  | ["rs"; j; pos] -> OpSetPos (nat_of_string j, n_of_string pos)
+  | ["rk"; j; "s"; v] -> OpSeek (nat_of_string j, SeekStart (n_of_string v))
+  | ["rk"; j; "c"; v] -> OpSeek (nat_of_string j, SeekCurrent (z_of_string v))
+  | ["rk"; j; "e"; v] -> OpSeek (nat_of_string j, SeekEnd (z_of_string v))
+  | ["rc"; j] -> OpReaderClone (nat_of_string j)
+  | ["tu"; i; b] -> OpTUpdate (nat_of_string i, parse b)
+  | ["tr"; i] -> OpTReset (nat_of_string i)
+  | ["tf"; i] -> OpTFinalize (nat_of_string i)
+  | ["tfr"; i] -> OpTFinalizeReset (nat_of_string i)
+  | ["tx"; i; n] -> OpTXof (nat_of_string i, n_of_string n)
+  | ["txr"; i; n] -> OpTXofReset (nat_of_string i, n_of_string n)
+  | ["tk"] -> OpTKeyInit
+  | ["td"] -> OpTDigestNew
+  | _ -> failwith ("op " ^ tok)
+
+let io_kind_name k = match int_of_n k with
+  | 0 -> "invalidinput" | 1 -> "wouldblock" | 2 -> "unexpectedeof" | 3 -> "invaliddata" | 4 -> "timedout"
+  | _ -> "other"
+
+let obs_token = function
+  | ObHex b -> hex_of_nlist b
+  | ObXof b -> "x" ^ hex_of_nlist b
+  | ObNum n -> string_of_n n
+  | ObRead (n, b) -> string_of_n n ^ "x" ^ hex_of_nlist b
+  | ObOk -> "ok"
+  | ObErrIo k -> "ERR:io:" ^ io_kind_name k
+
+let status_tokens = function
+  | Ok _ -> []
+  | Panic c -> [if debug_only c then "PANIC_DBG" else "PANIC"]
+  | OutOfFuel -> ["OUTOFFUEL"]
+
 let run_case (k : string) (toks : string list) : string list =
   match toks with
   | "H" :: mode :: plat :: ops ->
     let p = platform_of plat in
-    List.map (fun op -> match String.split_on_char ':' op with
-      | ["oh"; b] ->
-        (match String.split_on_char '=' mode with
-         | ["hash"] -> res_hex (rs_hash p (parse b))
-         | ["keyed"; k] -> res_hex (rs_keyed_hash p (parse k) (parse b))
-         | ["derive"; c] | ["derivek"; c] -> res_hex (rs_derive_key p (parse c) (parse b))
-         | _ -> failwith "mode")
-      | ["sh"; b] -> hex_of_nlist (b3_hash (parse b))
-      | _ -> failwith ("op " ^ op)) ops
+    let (obs, st) = Model.run_case p (mode_of mode) (List.map op_of ops) in
+    List.map obs_token obs @ status_tokens st
   | _ -> failwith ("unknown case kind " ^ k)
